@@ -93,6 +93,7 @@ pub fn gen_program(r: &mut Rng, rich: bool, text_classes: &[&str]) -> Value {
                 8 => json!({"op": "translate", "a": [x / 10.0, y / 10.0]}),
                 9 => json!({"op": "fill_cmyk", "a": [0.1, 0.2, 0.3, r.below(101) as f64 / 100.0]}),
                 10 => json!({"op": "circle", "a": [x, y, 5.0 + x / 20.0]}),
+                11 if rich => json!({"op": "opacity", "a": [(1 + r.below(9)) as f64 / 10.0]}),
                 _ => {
                     let cls = *r.pick(text_classes);
                     // content text goes through WinAnsi: keep to classes the encoding can carry
@@ -276,6 +277,9 @@ pub fn build(prog: &Value) -> Built {
                 }
                 "circle" => {
                     page.graphics().circle(a[0], a[1], a[2]).fill_stroke();
+                }
+                "opacity" => {
+                    page.graphics().set_opacity(a[0]);
                 }
                 "text" => {
                     let f = FONTS[s["font"].as_u64().unwrap_or(0) as usize % FONTS.len()].1.clone();
